@@ -101,6 +101,20 @@ def r12_3(ctx):
     ok = vals.get('self.exc') == 'repr(%s)' % P[1] and vals.get('self.value') == 'repr(%s)' % P[2]
     ctx.ob('R12.3', 'MaybeEncodingError:holds-only-reprs', ok, init, None,
            'stores repr(exc) and repr(value), so the error record itself always pickles')
+    # what is pickled with the exception is its .args (the arguments of Exception.__init__): text only
+    texts = {t for t, v in vals.items() if v.startswith('repr(') or v.startswith('str(')}
+    sup = [c for c in walk_own(init.node) if isinstance(c, ast.Call) and isinstance(c.func, ast.Attribute)
+           and c.func.attr == '__init__' and ast.unparse(c.func.value) in ('super()', 'Exception', 'super(MaybeEncodingError, self)')]
+    q.need(sup, 'MaybeEncodingError.__init__ does not initialise Exception')
+    for c in sup:
+        bad = [ast.unparse(a) for a in c.args
+               if not (ast.unparse(a) in texts or isinstance(a, ast.Constant) or
+                       (isinstance(a, ast.Call) and ast.unparse(a.func) in ('repr', 'str')))
+               and not (ast.unparse(a) == 'self' and ast.unparse(c.func.value) != 'super()')]
+        ctx.ob('R12.3', 'MaybeEncodingError:args-are-text', not bad and not c.keywords, init, c,
+               'Exception.__init__ gets only repr()/str() text' if not bad else
+               'the raw object `%s` becomes part of .args and is pickled with the fallback result: when it cannot be '
+               'pickled either, the fallback put fails and the worker dies' % bad[0])
 
 
 def r12_4(ctx):
@@ -185,6 +199,8 @@ def run(ctx):
 _E = 'billiard/einfo.py'
 _P = 'billiard/pool.py'
 MUTANTS = [
+    ('encoding-error-args-hold-the-raw-error', _P, "        super().__init__(self.exc, self.value)", "        super().__init__(exc, self.value)", 'R12.3'),
+    ('encoding-error-args-hold-the-raw-value', _P, "        super().__init__(self.exc, self.value)", "        super().__init__(self.exc, value)", 'R12.3'),
     ('reduce-swapped', _E, "        return rebuild_exc, (self.exc, self.tb)", "        return rebuild_exc, (self.tb, self.exc)", 'R12.1'),
     ('reduce-drops-tb', _E, "        return rebuild_exc, (self.exc, self.tb)", "        return rebuild_exc, (self.exc,)", 'R12.1'),
     ('frame-rebuilds-as-code', _E, "        return _Frame.__new__, (_Frame,), self.__dict__", "        return _Code.__new__, (_Code,), self.__dict__", 'R12.1'),
@@ -211,6 +227,7 @@ MUTANTS = [
      "        if not self._success:\n            return self._value\n        else:\n            raise self._value.exception", 'R12.5'),
 ]
 TWINS = [
+    ('encoding-error-args-repr-inline', _P, "        super().__init__(self.exc, self.value)", "        super().__init__(repr(exc), self.value)"),
     ('bound-lt', _E, "            if depth <= max_frames:", "            if depth < max_frames:"),
     ('bound-flipped', _E, "            if depth <= max_frames:", "            if max_frames >= depth:"),
     ('reduce-type-self', _P, "        return self.__class__, (\n            self.inq,", "        return type(self), (\n            self.inq,"),
